@@ -100,3 +100,11 @@ package influxql
 //@     requires tagis(n, "*influxql.InCondition") && recv == as(n, "*influxql.InCondition").Stmt
 //@     set asked = true
 //@   ensures [in_subquery_privileges_collected] tagis(n, "*influxql.InCondition") && as(n, "*influxql.InCondition") != nil && as(n, "*influxql.InCondition").Stmt != nil && old(inErr) == nil ==> asked
+
+// ================================================================ C12: grouping survives the extraction of time bounds
+//@ prop C12
+// The printer never adds parentheses, so grouping must be carried by ParenExpr nodes. When the time bounds are lifted
+// out of a parenthesised group, what remains of the group is still parenthesised - otherwise (a OR b) AND c is shipped
+// as "a OR b AND c" and re-parsed as a OR (b AND c).
+//@ func conditionExpr
+//@   ensures [group_stays_a_group] tagis(cond, "*influxql.ParenExpr") && result2 == nil && result0 != nil ==> tagis(result0, "*influxql.ParenExpr")
